@@ -11,7 +11,10 @@ vars == <<E, th, lo, hi, incl, inside, pc, i, first, last>>
 
 SortedArrays == UNION { {s \in [1..n -> 0..EMAX] : \A k \in 1..(n - 1) : s[k] <= s[k + 1]} : n \in 1..NB }
 
-Init == /\ E \in SortedArrays /\ th \in THS /\ lo \in (-1)..(EMAX + 1) /\ hi \in (-1)..(EMAX + 1) /\ lo <= hi
+(* lo > hi: the empty window; the pair (EMAX + 1, -1) stands for the defaults win_min = +inf, win_max = -inf
+   ("nothing frozen"), the pair (2, 0) for an ordinary inverted window *)
+Init == /\ E \in SortedArrays /\ th \in THS /\ lo \in (-1)..(EMAX + 1) /\ hi \in (-1)..(EMAX + 1)
+        /\ (lo <= hi \/ <<lo, hi>> \in {<<EMAX + 1, -1>>, <<2, 0>>})
         /\ incl \in BOOLEAN
         /\ inside = [j \in 1..Len(E) |-> E[j] >= lo /\ E[j] <= hi]
         /\ pc = "start" /\ i = 0 /\ first = 0 /\ last = 0
@@ -50,4 +53,5 @@ Result == {j \in 1..Len(E) : inside[j]}
 WindowNeverSplits == pc = "done" => NeverSplits(E, th, Result)
 WindowMeaning     == pc = "done" => Result = SelectWindow(E, th, lo, hi, incl)
 WindowMonotone    == pc = "done" => (IF incl THEN Inside0(E, lo, hi) \subseteq Result ELSE Result \subseteq Inside0(E, lo, hi))
+EmptyWindowEmpty  == (pc = "done" /\ lo > hi) => Result = {}
 =============================================================================
